@@ -128,7 +128,7 @@ pub fn build(cfg: &Cfg) -> (Scenario, Vec<Box<dyn Peer>>) {
     (sc, peers)
 }
 
-pub const MENU: usize = 4 + 2 * 6 + 5;
+pub const MENU: usize = 4 + 2 * 6 + 5 + 4;
 
 fn injector() -> sim::Injector {
     Arc::new(|log: &[Datagram], _now: u64, _at: &Datagram, m: usize| {
@@ -160,7 +160,25 @@ fn injector() -> sim::Injector {
                     tid.push(0x2a);
                     Some((fresh_addr(140), n, krpc::response(&tid, &fid, Some(b"forged"), Some(&vals), &nodes)))
                 }
-                _ => Some((grabber_addr(), n, krpc::get_peers(b"grab", &[0x6b; 20], &crate::props::single::hash_n(1), None))),
+                20 => Some((grabber_addr(), n, krpc::get_peers(b"grab", &[0x6b; 20], &crate::props::single::hash_n(1), None))),
+                21 | 22 => {
+                    // 8 bytes whose action prefix the node never used: a live prefix with its top bit
+                    // (m = 21) / top byte (m = 22) changed -- prefixes are allocated upward from 0
+                    let (d, p) = last_q?;
+                    let mut tid = p.tid.clone();
+                    if m == 21 {
+                        tid[0] ^= 0x80;
+                    } else {
+                        tid[0] = tid[0].wrapping_add(0x33) | 0x01;
+                    }
+                    let from = if m == 21 { fresh_addr(141) } else { d.dst };
+                    Some((from, n, krpc::response(&tid, &fid, Some(b"forged"), Some(&vals), &nodes)))
+                }
+                _ => {
+                    // a query from a fresh address that claims the id of a node the table only knows by name
+                    let claimed = if log.len() % 2 == 0 { named_id(1) } else { named_id(7) };
+                    Some((fresh_addr(142), n, krpc::ping(b"spoofid1", &claimed)))
+                }
             };
         }
         let k = log.len() % 150;
@@ -282,12 +300,14 @@ fn diff(base: &[String], got: &[String]) -> Option<String> {
     None
 }
 
-const MENU_NAMES: [&str; 21] = [
+const MENU_NAMES: [&str; 25] = [
     "ping from a fresh (id,address)", "find_node from a fresh (id,address)", "get_peers from a fresh (id,address)", "announce_peer from a fresh (id,address)",
     "response tid 2 bytes (fresh address)", "response tid 7 bytes (fresh address)", "response tid 9 bytes (fresh address)", "response tid 20 bytes (fresh address)", "response tid 8 bytes, action prefix 2^16 never used (fresh address)", "response tid 8 bytes, action prefix 2^40-1 never used (fresh address)",
     "response tid 2 bytes (from a known contact)", "response tid 7 bytes (from a known contact)", "response tid 9 bytes (from a known contact)", "response tid 20 bytes (from a known contact)", "response tid 8 bytes, action prefix 2^16 never used (from a known contact)", "response tid 8 bytes, action prefix 2^40-1 never used (from a known contact)",
     "response: outstanding id + 1 byte, from the node that was asked", "response: outstanding id + 12 bytes, from the node that was asked", "response: outstanding id cut to 7 bytes, from the node that was asked", "response: outstanding id + 1 byte, from a fresh address",
     "get_peers from a party that then announces with the token it is handed (queries only)",
+    "response: live action prefix with its top bit flipped (never used), fresh address", "response: live action prefix with its top byte changed (never used), from the node that was asked",
+    "ping from a fresh address claiming the id of a node known only by name", "ping from a fresh address claiming the id of a node known only by name (2)",
 ];
 
 pub fn replay(v: &Value) -> i32 {
@@ -379,7 +399,7 @@ pub fn run(tier: Tier) -> Report {
             }
             let m = *prefix.last().unwrap();
             if let Some(dd) = d {
-                let class = if m <= 4 || m == 21 { "unsolicited-query" } else { "unattributable-response" };
+                let class = if m <= 4 || m == 21 || m >= 24 { "unsolicited-query" } else { "unattributable-response" };
                 rep.violation(format!("injection-changes-contacts-or-results kind={class}"), format!("injecting '{}' at wire event #{}: {dd} [{:?}]", MENU_NAMES[m - 1], prefix.len() - 1, cfg), json!({"engine":"E1","check":"C12","cfg":cfg_json(cfg),"choices":prefix}));
             }
             for (s, w) in abs {
